@@ -91,6 +91,23 @@ def step (st : St) (args : List String) : St × String :=
   | ["init"] => (some CState.init, "ok")
   | ["init", _] => (some CState.init, "ok")
   | ["move", _] => (st, if st.isSome then "ok" else "bad-op")
+  | ["startskipped"] => (st, "start=skipped")
+  | "conf" :: rest =>
+    -- kafka_cluster.go:58 `Configure`: each refresh interval as set, else its documented default
+    let v (k : String) (d : Int) : Int := (parseInt? (kvOf rest k)).getD d
+    let c := Cluster.settings (parseInt? (kvOf rest "or")) (parseInt? (kvOf rest "tr")) (parseInt? (kvOf rest "gr"))
+    let _ := v
+    (st, s!"conf or={c.1} tr={c.2.1} gr={c.2.2}")
+  | "start" :: rest =>
+    -- the whole module: Start fetches once with fetchMetadata set, then the first offset tick runs one more cycle
+    let env := envOf (rest ++ ["terr=0", "perr=-", "lq=-", "bf=-"])
+    let outs := runLoop "c0" CState.init [.offset env, .offset env]
+    let sEnd := loopState "c0" CState.init [.offset env, .offset env]
+    let strip (x : String) : String := ((x.splitOn " fm=").headD x).replace " " "~"
+    match outs with
+    | [.cycled o1, .cycled o2] =>
+      (st, s!"start=ok c1={strip (showCycle sEnd o1)} c2={strip (showCycle sEnd o2)} fm={if sEnd.fetchMetadata then 1 else 0}")
+    | _ => (st, "bad-op")
   | ["loop"] => (st, if st.isSome then "ok" else "bad-op")
   | ["stop"] => (st, if st.isSome then "stopped" else "bad-op")
   | "cycle" :: rest =>
